@@ -164,3 +164,108 @@ Lemma minv_reach : forall progs sch, minv (steps sch (init progs)).
 Proof. intros. apply steps_inv; [apply minv_step|apply minv_init]. Qed.
 Lemma qinv_reach : forall progs sch, qinv (steps sch (init progs)).
 Proof. intros. apply steps_inv; [apply qinv_step|apply qinv_init]. Qed.
+
+(* ------------------------------------------------------------------ no deadlock *)
+Lemma pop_min_none : forall q l, pop_min q l = None -> q_empty q l = true.
+Proof.
+  induction l as [|[q' e] r IH]; intros H; [reflexivity|].
+  cbn [pop_min] in H. unfold q_empty. cbn [existsb fst].
+  destruct (q' =? q) eqn:E.
+  - destruct (pop_min q r) as [[m r']|]; [destruct (entry_le e m)|]; discriminate.
+  - destruct (pop_min q r) as [[m r']|]; [discriminate|]. cbn. apply IH. reflexivity.
+Qed.
+
+(* why a thread cannot move *)
+Lemma tstep_none : forall t th h, tstep t th h = None ->
+  finished th = true \/ waiting_get th h = true \/
+  (h_mlock h <> 0 /\ mlocked (t_pc th) = false) \/
+  (exists q, aget (h_qlock h) q <> 0 /\ qlocked (t_pc th) = None).
+Proof.
+  intros t [prog p] h H.
+  unfold tstep in H; cbn [t_pc t_prog] in H.
+  unfold start, cont, enq, estep, close_empty in H.
+  open_match H; try discriminate H.
+  all: unfold finished, waiting_get; cbn [t_pc t_prog mlocked qlocked]; auto.
+  all: try (match goal with Hp : pop_min _ _ = None |- _ => rewrite (pop_min_none _ _ Hp) end).
+  all: try (match goal with Hr : h_run _ = true |- _ => rewrite Hr end); auto.
+  all: try (right; right; left; split; [congruence|reflexivity]).
+  all: right; right; right; eexists; split; [|reflexivity]; rewrite Heqn; discriminate.
+Qed.
+
+Lemma qlocked_enabled : forall t th h q, qlocked (t_pc th) = Some q -> tstep t th h <> None.
+Proof.
+  intros t [prog p] h q H. destruct p; try discriminate H; cbn [t_pc qlocked] in H.
+  - destruct e; try discriminate H; unfold tstep, cont, enq, estep; cbn [t_pc t_prog]; discriminate.
+  - unfold tstep, cont; cbn [t_pc t_prog]; discriminate.
+  - unfold tstep, cont; cbn [t_pc t_prog]; discriminate.
+Qed.
+
+Lemma mlocked_enabled : forall t th h, mlocked (t_pc th) = true ->
+  tstep t th h <> None \/ exists q, aget (h_qlock h) q <> 0 /\ qlocked (t_pc th) = None.
+Proof.
+  intros t th h H. destruct (tstep t th h) eqn:E; [left; discriminate|].
+  right. destruct (tstep_none _ _ _ E) as [F|[W|[(A & B)|Q]]]; auto; destruct th as [prog p].
+  - unfold finished in F. cbn [t_pc t_prog mlocked] in *. destruct p; try discriminate H; try discriminate F.
+  - unfold waiting_get in W. cbn [t_pc t_prog] in *. destruct p; try discriminate H; try discriminate W.
+  - cbn [mk t_pc] in *. congruence.
+Qed.
+
+Lemma enabled_iff : forall t st, enabled t st = true <->
+  exists th, nth_error (c_thr st) t = Some th /\ tstep t th (c_sh st) <> None.
+Proof.
+  intros. unfold enabled. destruct (nth_error (c_thr st) t) as [th|].
+  - destruct (tstep t th (c_sh st)) eqn:E; split; intros H; try discriminate.
+    + exists th. split; [reflexivity|]. rewrite E. discriminate.
+    + reflexivity.
+    + destruct H as (th' & A & B). inversion A; subst. congruence.
+  - split; [discriminate|]. intros (th & A & _). discriminate.
+Qed.
+
+Lemma lt_nth : forall {A} (l : list A) n, n < length l -> exists a, nth_error l n = Some a.
+Proof.
+  intros A l n H. destruct (nth_error l n) eqn:E; [eauto|]. apply nth_error_None in E. lia.
+Qed.
+
+Lemma holder_q_enabled : forall st q, qinv st -> aget (h_qlock (c_sh st)) q <> 0 -> exists u, enabled u st = true.
+Proof.
+  intros st q [Q1 Q2] H. destruct (aget (h_qlock (c_sh st)) q) as [|u] eqn:E; [congruence|].
+  destruct (lt_nth _ _ (Q2 _ _ E)) as (thu & Hu).
+  exists u. apply enabled_iff. exists thu. split; [exact Hu|].
+  apply (qlocked_enabled _ _ _ q). apply (Q1 _ _ _ Hu). exact E.
+Qed.
+
+Lemma progress : forall st, minv st -> qinv st ->
+  forall t th, nth_error (c_thr st) t = Some th ->
+  finished th = true \/ waiting_get th (c_sh st) = true \/ exists u, enabled u st = true.
+Proof.
+  intros st [M1 M2] Q t th Ht.
+  destruct (tstep t th (c_sh st)) eqn:E.
+  { right; right. exists t. apply enabled_iff. exists th. split; [exact Ht|congruence]. }
+  destruct (tstep_none _ _ _ E) as [F|[W|[(A & B)|(q & A & B)]]]; auto.
+  - right; right.
+    destruct (h_mlock (c_sh st)) as [|u] eqn:Eu; [congruence|].
+    destruct (lt_nth _ _ (M2 _ eq_refl)) as (thu & Hu).
+    assert (Lu : mlocked (t_pc thu) = true) by (apply (M1 _ _ Hu); reflexivity).
+    destruct (mlocked_enabled u thu (c_sh st) Lu) as [En|(q & A' & _)].
+    + exists u. apply enabled_iff. eauto.
+    + eapply holder_q_enabled; eauto.
+  - right; right. eapply holder_q_enabled; eauto.
+Qed.
+
+(* in every reachable state: some thread can take a (non-stutter) step, or every unfinished thread waits in
+   PriorityQueue.get() on an empty queue *)
+Theorem no_deadlock : forall progs sch, let st := steps sch (init progs) in
+  (exists t, enabled t st = true) \/
+  (forall t th, nth_error (c_thr st) t = Some th -> finished th = true \/ waiting_get th (c_sh st) = true).
+Proof.
+  intros progs sch st.
+  destruct (existsb (fun t => enabled t st) (seq 0 (length (c_thr st)))) eqn:E.
+  - left. apply existsb_exists in E. destruct E as (t & _ & H). eauto.
+  - right. intros t th Ht.
+    destruct (progress st (minv_reach progs sch) (qinv_reach progs sch) t th Ht) as [F|[W|(u & Hu)]]; auto.
+    exfalso. assert (X : existsb (fun t => enabled t st) (seq 0 (length (c_thr st))) = true).
+    { apply existsb_exists. exists u. split; [|exact Hu]. apply in_seq.
+      apply enabled_iff in Hu. destruct Hu as (thu & A & _).
+      assert (u < length (c_thr st)) by (apply nth_error_Some; congruence). lia. }
+    congruence.
+Qed.
